@@ -3,6 +3,7 @@ CONSTANTS
   MaxRanges = 1
   Starts = {0, 2}
   MaxQueries = 0
+  NumericAcross = TRUE
 CONSTRAINT Progress
 INVARIANT Complete
 INVARIANT TraceAllowed
